@@ -43,7 +43,7 @@ package chpool
 //@   requires ctx != nil && c != nil && c.res != nil && c.res.acquired && c.res.value != nil && c.res.value.client != nil
 //@   modifies all(c.res.value.client), all(ctx)
 //@ contract (c *Client) Ping(ctx) (err) props(C11)
-//@   requires c != nil && c.res != nil && c.res.acquired && c.res.value != nil && c.res.value.client != nil
+//@   requires ctx != nil && c != nil && c.res != nil && c.res.acquired && c.res.value != nil && c.res.value.client != nil
 //@   modifies all(c.res.value.client), all(ctx)
 
 //@ -- constructor / destructor handed to puddle
@@ -61,5 +61,5 @@ package chpool
 //@   requires ctx != nil && p != nil && p.pool != nil
 //@   modifies all(p.pool), all(ctx)
 //@ contract (p *Pool) Ping(ctx) (err) props(C11)
-//@   requires p != nil && p.pool != nil
+//@   requires ctx != nil && p != nil && p.pool != nil
 //@   modifies all(p.pool), all(ctx)
